@@ -307,3 +307,67 @@ def rule_attr_count_kept(ctx):
     else:
         ctx.holds("ATTRCOUNT", key, f.where(sink[0][5]), "the record count `%s` reaches NC_new_attr (scaled by the field order for character types)" % nrec, nontrivial=True)
     return 1
+
+
+class _DimDirty(PathAnalysis):
+    """user = (line of the first change of a dimension's name or identity, header marked dirty)"""
+
+    def __init__(self, prog):
+        super().__init__(prog)
+        self.bad = []
+        self.changes = set()
+        self.slotptrs = set()
+
+    def init_user(self, func):
+        # locals that point into the file's dimension array (`ap = handle->dims->values; ap += ...`)
+        self.slotptrs = set()
+        for _b, _i, _s, n in func.nodes(True):
+            if n[0] == "asg" and n[1] == "=" and kind(strip(n[2])) == "var":
+                if any(y[0] == "mem" and y[2] == "values" and any(z[0] == "mem" and z[2] == "dims" for z in walk(y[1], True)) for y in walk(n[3], True)):
+                    self.slotptrs.add(strip(n[2])[1])
+        return (None, False)
+
+    def on_stmt(self, func, bid, idx, stmt, env, user):
+        chg, dirty = user
+        for x in walk(stmt["e"], True):
+            if x[0] == "asg" and x[1] == "=":
+                t = strip(x[2])
+                mf = mem_field(t)
+                if mf == ("NC_dim", "name") or (kind(t) == "deref" and base_var(t[1]) in self.slotptrs):
+                    self.changes.add(x[4])
+                    if chg is None:
+                        chg = x[4]
+            if x[0] == "asg" and x[1] == "|=" and (mem_field(x[2]) or (0, 0))[1] == "flags":
+                r = strip(x[3])
+                if is_int(r) and int_val(r) & NC_HDIRTY:
+                    dirty = True
+        return (chg, dirty)
+
+    def on_exit(self, func, bid, retval, env, user):
+        chg, dirty = user
+        if chg is not None and not dirty and classify_ret(retval, self.fails) != "fail":
+            self.bad.append(chg)
+
+
+def rule_dim_dirty(ctx):
+    """DIMDIRTY (C10): a public SD function that renames a dimension (stores NC_dim.name) or makes a data set use another
+    dimension object (stores into a slot of handle->dims->values) sets NC_HDIRTY on every non-failing path; without it SDend
+    does not rewrite the dimension Vgroups and the change is lost when it is the only change of the session."""
+    prog = ctx.prog
+    n = 0
+    for f in prog.lib_funcs():
+        if not f.rel.endswith("mfsd.c") or not prog.is_public(f.name):
+            continue
+        a = _DimDirty(prog)
+        a.fails = fail_values(f, prog)
+        a.run(f)
+        if not a.changes:
+            continue
+        n += len(a.changes)
+        key = "DIMDIRTY:%s" % f.name
+        if a.bad:
+            ctx.violated("DIMDIRTY", key, f.where(min(a.bad)), "a non-failing path changes a dimension's name or identity (line %d) without setting NC_HDIRTY: SDend would not write the change" % min(a.bad))
+        else:
+            ctx.holds("DIMDIRTY", key, f.where(), "%d change(s) of a dimension's name/identity: NC_HDIRTY set on every non-failing path" % len(a.changes), nontrivial=True)
+    ctx.floor("DIMDIRTY", 2, n, "(stores to a dimension's name or to a slot of the dimension array in the public SD functions)")
+    return n
